@@ -30,7 +30,10 @@ def oracle(case, observed):
             break
         obs = ob["obs"]
         icalls = [(o[1], o[2]) for o in obs if o[0] == "I"]
-        exp, final, rej = D.expected_rail_calls(turn["iv"], turn["user"], rewriting=(ver == "v1"))
+        if (turn.get("opt") or {}).get("input", True):
+            exp, final, rej = D.expected_rail_calls(turn["iv"], turn["user"], rewriting=(ver == "v1"))
+        else:
+            exp, final, rej = [], turn["user"], None     # the caller switched the input rails off for THIS call
         # order / prefix / what each rail was shown / nobody after a rejection / everybody otherwise
         if icalls != exp:
             if [k for k, _ in icalls] != [k for k, _ in exp]:
@@ -48,7 +51,7 @@ def oracle(case, observed):
         if any(o[0] == "I" for o in obs[first_other:]) or (
                 case["n_in"] > 0 and any(o[0] in ("L", "O") for o in obs[:len(icalls)])):
             out.append((f"{ver}-dialog-before-input-rails", f"turn {t}: observation order {[(o[0], o[1]) for o in obs]}", t))
-        if case["n_in"] > 0 and not icalls and any(o[0] == "L" for o in obs):
+        if case["n_in"] > 0 and not icalls and exp and any(o[0] == "L" for o in obs):
             out.append((f"{ver}-llm-call-without-input-rails", f"turn {t}: LLM called, no input rail ran", t))
         reply = ob["reply"]
         if rej is not None:
